@@ -9,6 +9,8 @@ import (
 	"sort"
 	"strings"
 	"sync"
+	"sync/atomic"
+	"time"
 )
 
 // A stream is a named family of cases: a generator (one PRNG), an optional exhaustive
@@ -107,7 +109,38 @@ func main() {
 	}
 }
 
-func safeRun(s *stream, c string) (out string) {
+// Watchdog: a case that has produced no result within caseLimit is reported as HANG (a goroutine of
+// the code under test is spinning outside every poll, or blocked for good - e.g. on a lock); the
+// goroutine cannot be stopped and may hold locks of the package under test, so every later case of
+// this process is SKIPPED (not judged).  The limit is two orders of magnitude above the slowest
+// healthy case of any stream.
+var hung int32
+
+func caseLimit() time.Duration {
+	if v := os.Getenv("VERIF_CASE_LIMIT"); v != "" {
+		if d, err := time.ParseDuration(v); err == nil {
+			return d
+		}
+	}
+	return 300 * time.Second
+}
+
+func safeRun(s *stream, c string) string {
+	if atomic.LoadInt32(&hung) != 0 {
+		return "SKIPPED after a hang in this process"
+	}
+	ch := make(chan string, 1)
+	go func() { ch <- safeRun1(s, c) }()
+	select {
+	case out := <-ch:
+		return out
+	case <-time.After(caseLimit()):
+		atomic.StoreInt32(&hung, 1)
+		return fmt.Sprintf("HANG no result within %s", caseLimit())
+	}
+}
+
+func safeRun1(s *stream, c string) (out string) {
 	defer func() {
 		if r := recover(); r != nil {
 			out = "HARNESS-PANIC " + encName(fmt.Sprint(r))
